@@ -866,6 +866,8 @@ func (p *idxProver) collect(f *ssa.Function) []idxOb {
 					}
 				} else if s, k, okr := p.upperRel(x.Low, in); okr && sameVal(s, base) && k-bk <= 0 {
 					d = "low <= len"
+				} else if mk, isMk := x.X.(*ssa.MakeSlice); isMk && sumOfLensContains(mk.Len, x.Low) {
+					d = "the slice was made with a length that is a sum of lengths including this low bound"
 				} else {
 					ok, d = false, "no proof that low <= len"
 				}
@@ -1121,4 +1123,32 @@ func (p *idxProver) requireParams(f *ssa.Function, need map[string]int) {
 			p.pre[prm] = n
 		}
 	}
+}
+
+// sumOfLensContains: total is a sum of len(...) terms (all non-negative) one of which is term.
+func sumOfLensContains(total, term ssa.Value) bool {
+	var terms []ssa.Value
+	var walk func(v ssa.Value) bool
+	walk = func(v ssa.Value) bool {
+		if b, ok := v.(*ssa.BinOp); ok && b.Op == token.ADD {
+			return walk(b.X) && walk(b.Y)
+		}
+		if c, ok := v.(*ssa.Call); ok && isBuiltin(c, "len") {
+			terms = append(terms, v)
+			return true
+		}
+		if c, ok := constInt(v); ok && c >= 0 {
+			return true
+		}
+		return false
+	}
+	if !walk(total) {
+		return false
+	}
+	for _, t := range terms {
+		if t == term || canon(t) == canon(term) {
+			return true
+		}
+	}
+	return false
 }
